@@ -27,7 +27,7 @@ PHASE_ENTRIES = [
 
 BARRIERS = {
     # function -> names of the partial calls that must sit inside the catch-all
-    'pydoctor.epydoc2stan.parse_docstring': ['parser'],
+    'pydoctor.epydoc2stan.parse_docstring': ['<parser>'],
     'pydoctor.epydoc2stan.safe_to_stan': ['to_stan'],
     'pydoctor.templatewriter.pages.format_signature': ['html2stan'],
     'pydoctor.epydoc.markup.ParsedDocstring.get_summary': ['to_node', 'walk'],
@@ -244,7 +244,7 @@ def run(repo: Repo, chk: Check, thorough: bool = False) -> None:
             ca = [h for h in n.handlers if is_catch_all(h)]
             if not ca:
                 continue
-            body_calls = {call_name(c) for st in n.body for c in ast.walk(st) if isinstance(c, ast.Call)}
+            body_calls = {_role(f, c) for st in n.body for c in ast.walk(st) if isinstance(c, ast.Call)}
             if not (set(partial) & body_calls):
                 continue
             found = True
@@ -255,7 +255,7 @@ def run(repo: Repo, chk: Check, thorough: bool = False) -> None:
                    f'{f.mod.relpath}:{h.lineno}')
             missing = [p for p in partial if p not in body_calls]
             # every partial call of the function must be inside this try
-            outside = [c for c in calls_in(f, lambda c: call_name(c) in partial)
+            outside = [c for c in calls_in(f, lambda c: _role(f, c) in partial)
                        if not any(t is n for t in enclosing_trys(c, f.node)) and
                        not any(isinstance(p, ast.ExceptHandler) for p in _parents_until(c, f.node))]
             chk.ob('R01.3', f'{q} :: no partial call outside the barrier', not outside and not missing,
@@ -266,6 +266,15 @@ def run(repo: Repo, chk: Check, thorough: bool = False) -> None:
             chk.ob('R01.3', f'{q} :: catch-all around {"/".join(partial)}', False,
                    f'no try with a catch-all handler (Exception/bare) around {partial} in {q}', f.loc)
     chk.require('R01.3', 8)
+
+
+def _role(f: Func, c: ast.Call) -> str:
+    """Name of the callee, or '<parser>' for a call of a local variable that holds a docstring parser."""
+    if isinstance(c.func, ast.Name):
+        from ..util import values_of
+        if any(isinstance(v, ast.Call) and call_name(v) in ('get_parser_by_name', 'processtypes') for v in values_of(f, c.func.id)):
+            return '<parser>'
+    return call_name(c)
 
 
 def _parents_until(node: ast.AST, stop: ast.AST):
